@@ -93,3 +93,4 @@ use crate::traits::{IdentityHandle, OperationId};
 
 impl IdentityHandle for VerifyingKey {}
 impl OperationId for Hash {}
+#[cfg(p2panda_p2panda_verif)] #[doc(hidden)] pub mod verif_c32;
